@@ -22,6 +22,8 @@ CFG = {
         "Parsley.C14.flate_pred_layer", "Parsley.C14.plain_layer", "Parsley.C14.predictorOf_one",
         "Parsley.C14.filters_of_spelled", "Parsley.C14.decodesTo_of_storedAs", "Parsley.C14.objstm_never_panics_loader",
         "Parsley.C14.objstm_filtered_accepted_wellformed", "Parsley.C14.first_beyond_rejected_filtered", "Parsley.C14.exChain",
+        # sweep: ParmsOf widened - /Columns (like /Colors, /BitsPerComponent) may be absent when it is the default 1
+        "Parsley.C14.ext_post_spelled", "Parsley.C14.exParms1_of",
     ],
     "partial": {
         "(filters: Huffman-coded Flate)": "closed by C14c for the loader's decoders (objstm_roundtrip_filtered: ASCIIHex, ASCII85, Flate over stored blocks and "
@@ -43,8 +45,12 @@ CFG = {
             "(C14c; the model runs the loader's decoders Loader.objDec, the harness the real ones): alternately the systematic enumeration of every chain of length 1 and 2 over the "
             "six layer kinds of C06's exhaustive stream (ASCIIHex mixed case/white space/odd digit, ASCII85 with z, Flate stored blocks, fixed-Huffman literals, fixed-Huffman "
             "LZ77 blocks in two framings) and chains of length 1..3 drawn by C06's randChain with each of C06's four /DecodeParms variants; one time in three a Flate layer "
-            "with a TIFF (2) or PNG (10..14) predictor is inserted at a random position (rows = a divisor of the layer's input, colours 1..4, 1/2/4/8/16 bits, /Colors and "
-            "/BitsPerComponent written or defaulted; encoder = C07's PredSpec.predict); /Filter spelled as a name (+ parameter dictionary), an array of names, parallel arrays; "
+            "with a TIFF (2) or PNG (10..14) predictor is inserted at a random position (rows = a divisor of the layer's input, colours 1..4, 1/2/4/8/16 bits; one time in three a SINGLE-COLUMN image, "
+            "a row = one pixel of 1..4 bytes or of 1/2/4 bits; the /DecodeParms dictionary written by the spec-side writer PredSpec.Params.entries: any "
+            "subset of the entries whose value is the default of ISO 32000-1 Table 8 - Colors 1, BitsPerComponent 8, Columns 1 - left out, all of them 9 times in 24; "
+            "encoder = C07's PredSpec.predict); 1/3 of the streams again through ONE Flate + predictor layer enumerated systematically (predictor 2, 10..14 x {single column, "
+            "rows of several pixels, one row} x geometry x {all default-valued entries left out, /Columns left out, all written, random mask}), every fourth of those once more with the "
+            "left-out entries written as non-integer objects ((1), 1.0, null, /1, true, [1], 1 0 R: kind mut, correspondence + no panic); /Filter spelled as a name (+ parameter dictionary), an array of names, parallel arrays; "
             "junk before the cursor, EOL bytes after the data; then for 1/4 of them ONE layer corrupted by a C06 corruption (illegal hex character, missing EOD, stray ~, illegal "
             "ASCII85 character, group >= 2^32, misaligned z, zlib truncated / Adler-32 / header / LEN / method): must be rejected; for 1/4 one encoded byte altered or the content "
             "truncated (correspondence + no panic); per stream one "
